@@ -19,7 +19,7 @@ from .. import facts as F
 from .. import census as CEN
 from ..models import decode_template, len_term
 from . import serve_model as SM
-from .common import where, short, impl_fn, inherent_fn, aggregates, cons_zone
+from .common import where, short, impl_fn, inherent_fn, aggregates, cons_zone, helper_inline, method_name
 
 CONFIGS_QUICK = ["dir"]
 
@@ -399,6 +399,92 @@ def r4_validators(ctx, E, ctor):
             ctx.ok("C18.R4", "length, identity and mtime are captured once from the supplied metadata; the file is the supplied file")
         else:
             ctx.violation("C18.R4", "C18.R4|ctor-source", "the validator fields are not all taken from the supplied metadata / file at construction")
+
+
+def headers_complete(ctx, rule):
+    """the crate's own entity hands on every header it was constructed with: the constructor keeps the caller's HeaderMap
+    itself, and add_headers appends each (name, value) of it - no filter, no de-duplication, `append` not `insert`"""
+    E = find_entity(ctx)
+    ia = ctx.facts.adts[E["inner_adt"]]
+    hf = [f["name"] for f in ia["variants"][0]["fields"] if f["ty"].startswith("http::HeaderMap")]
+    if len(hf) != 1:
+        ctx.violation(rule, rule + "|field", "UNRECOGNISED: the file entity does not keep the caller's HeaderMap as one field of %s (header-typed fields: %s): "
+                      "whether every supplied header (repeated names included) survives cannot be read off" % (E["inner_adt"], hf))
+        return
+    hf = hf[0]
+    # construction: the field is the parameter itself
+    sites = aggregates(ctx.facts, E["adt"])
+    fns = sorted({b["name"] for b, i, st in sites if " as std::clone::Clone>" not in b["name"]})
+    nrow = 0
+    for ctor in fns:
+        b = ctx.facts.bodies[ctor]
+        hp = [("param", i) for i in range(1, b["arg_count"] + 1) if b["locals"][i]["s"].startswith("http::HeaderMap")]
+        for o in ctx.px(ctor, inline=lambda c, d: True, key="all"):
+            if not (o.kind == "return" and is_agg(o.value) and o.value[3] == "Ok"):
+                continue
+            arc = agg_get(agg_get(o.value, "0"), E["inner_f"])
+            innerv = o.state.env.get(("H", ("pointee", arc)))
+            got = agg_get(innerv, hf) if is_agg(innerv) else None
+            nrow += 1
+            if got in hp:
+                ctx.ok(rule, "%s stores the caller's header map unchanged" % ctor)
+            else:
+                ctx.violation(rule, rule + "|ctor", "the file entity stores %s, not the header map it was given: supplied headers can be lost or altered" % short(got, 100))
+    ctx.floor(rule + ".ctor", nrow, 1, what="constructor rows")
+    # add_headers: every pair of the stored map is appended
+    outs = [o for o in ctx.px(E["add_headers"], inline=helper_inline(ctx, own=(E["adt"], E["inner_adt"])), key="helpers")]
+    nrow = 0
+    loop_form = any(o.kind == "backedge" for o in outs)
+    for o in outs:
+        if o.kind == "backedge":
+            continue
+        if o.kind != "return":
+            ctx.violation(rule, rule + "|exit", "add_headers leaves by a %s exit" % o.kind)
+            continue
+        nrow += 1
+        bad = []
+        if loop_form:
+            # `for (k, v) in &self.headers { h.append(..) }`: this is the loop's exit row; the turns are judged below
+            adapt = [method_name(e["callee"]) for e in o.events if e["k"] == "call" and method_name(e["callee"]) in
+                     ("filter", "filter_map", "take", "skip", "take_while", "skip_while", "step_by", "dedup", "keys", "zip", "rev")]
+            if adapt:
+                ctx.violation(rule, rule + "|add|adaptor", "file entity add_headers: the stored headers pass through %s before they are handed on" % "/".join(sorted(set(adapt))))
+            if not any(e["k"] == "call" and method_name(e["callee"]) in ("iter", "into_iter") and e["args"] and ("." + hf) in fmt_term(e["args"][0]) for e in o.events):
+                ctx.violation(rule, rule + "|add|loop-source", "file entity add_headers: the loop does not iterate the stored header map")
+            continue
+        muts = [e for e in o.events if e["k"] == "call" and e["args"] and fmt_term(e["args"][0]).replace("&", "").replace("(", "").replace(")", "").replace("*", "").strip() == "arg2"
+                and method_name(e["callee"]) not in ("reserve", "len", "capacity", "is_empty", "contains_key", "get", "keys_len")]
+        adapt = [method_name(e["callee"]) for e in o.events if e["k"] == "call" and method_name(e["callee"]) in
+                 ("filter", "filter_map", "take", "skip", "take_while", "skip_while", "step_by", "dedup", "dedup_by_key", "keys", "find", "nth", "last", "next", "zip", "rev", "peekable")]
+        if adapt:
+            bad.append("the stored headers pass through %s before they are handed on" % "/".join(sorted(set(adapt))))
+        if len(muts) != 1:
+            bad.append("%d calls modify the response's header map (%s); expected one extend / append of the stored headers" % (len(muts), [method_name(e["callee"]) for e in muts]))
+        else:
+            m = muts[0]
+            mn = method_name(m["callee"])
+            src = fmt_term(m["args"][1]) if len(m["args"]) > 1 else ""
+            if mn == "extend":
+                if ("." + hf) not in src:
+                    bad.append("extend() is not fed from the stored header map (%s)" % src[:80])
+            elif mn == "append":
+                pass
+            else:
+                bad.append("the headers are added with `%s`, which %s" % (mn, "replaces earlier values of a repeated name" if mn == "insert" else "is not extend / append"))
+        if bad:
+            ctx.violation(rule, rule + "|add|" + bad[0][:40], "file entity add_headers: " + "; ".join(bad), where=where(muts[0]) if muts else None)
+        else:
+            ctx.ok(rule, "add_headers extends the response's map with every (name, value) of the stored map", where=where(muts[0]))
+    for o in outs:
+        if o.kind == "backedge":
+            muts = [method_name(e["callee"]) for e in o.events if e["k"] == "call" and e["args"] and "arg2" in fmt_term(e["args"][0])[:12]
+                    and method_name(e["callee"]) in ("insert", "append", "try_insert", "try_append", "entry")]
+            nrow += 1
+            if muts != ["append"]:
+                ctx.violation(rule, rule + "|add|loop", "file entity add_headers: a loop turn adds a stored header with %s; `append` keeps every value of a repeated name" % (muts or "nothing"))
+            else:
+                ctx.ok(rule, "add_headers loop turn appends the stored (name, value)")
+    ctx.floor(rule + ".add", nrow, 1, what="add_headers rows")
 
 
 def _etag_tl(ev, o):
